@@ -614,6 +614,13 @@ def replay_model(rec, monitor):
     # order by the real signature
     import inspect
     order = [p for p in inspect.signature(fn).parameters if p != 'self']
+    missing = [p for p in order if p not in args and inspect.signature(
+        fn).parameters[p].default is inspect.Parameter.empty]
+    if missing:
+        raise Bad('parameter(s) %s of the real function have no concrete '
+                  'counterpart in the replay' % ', '.join(missing))
+    if inspect.isgeneratorfunction(fn):
+        raise Bad('generator function: not driven by the replay')
     args = {p: args[p] for p in order if p in args}
     out = monitor.run(qual, self_obj, args, keys)
     verdict = {
